@@ -87,7 +87,7 @@ Print Assumptions C08_drift_kick_slice.
     hold the wake potential [_wakepotential[b][x]] (position [wp_flat] in the array wakePotential() returns) and the
     interpolation row built from it, and nothing else. *)
 From Inovesa Require Import Model.StepKinds Gen.Gen_StepOrder Model.RunKinds Gen.Gen_WakeUpdate Gen.Gen_Identity
-  Gen.Gen_KickIndex Model.WakeUpdate Model.Run Proofs.WakeUpdateP Proofs.RunP Proofs.RunFPP.
+  Gen.Gen_KickIndex Model.Copy Model.WakeUpdate Model.Run Proofs.CopyP Proofs.WakeUpdateP Proofs.RunP Proofs.RunFPP.
 Import ListNotations.
 
 Theorem C08_wake_kick_own_potential :
